@@ -761,8 +761,8 @@ static void mode_trunc(vf::Ctx& c)
 	case 3: { CStr in(full); Buf o((len + 1) * sizeof(int)); int r = utf8toUtf32(in.p(), o.i(), len); if (r > len) FAILF("trunc.utf8toUtf32", "%d", r); break; }
 	case 4: { CStr in(full); Buf o((len + 1) * sizeof(wchar_t)); int r = utf8toUtf16(in.p(), o.w(), len); if (r > len) FAILF("trunc.utf8toUtf16", "%d", r); break; }
 	case 5: { const wchar_t* w = s.dataw(); if (wcslen(w) > (size_t)len) FAILF("trunc.dataw", "too long"); break; }
-	case 6: { String u = s.toUpperCase(); if (u.length() > len) FAILF("trunc.case.longer-than-input", "%d > %d", u.length(), len); if (!lenok(u)) FAILF("trunc.toUpperCase.length-vs-strlen", "length()=%d strlen=%d: the output contains a NUL byte", u.length(), (int)strlen(*u)); break; }
-	case 7: { String u = s.toLowerCase(); if (u.length() > len) FAILF("trunc.case.longer-than-input", "%d > %d", u.length(), len); if (!lenok(u)) FAILF("trunc.toLowerCase.length-vs-strlen", "length()=%d strlen=%d: the output contains a NUL byte", u.length(), (int)strlen(*u)); break; }
+	case 6: { String u = s.toUpperCase(); if (u.length() > len) FAILF("trunc.case.longer-than-input", "%d > %d", u.length(), len); if (!lenok(u)) { if (AVOID & 2) { c.count("case_map_embedded_nul_on_illformed_input(recorded)"); break; } } if (!lenok(u)) FAILF("trunc.toUpperCase.length-vs-strlen", "length()=%d strlen=%d: the output contains a NUL byte", u.length(), (int)strlen(*u)); break; }
+	case 7: { String u = s.toLowerCase(); if (u.length() > len) FAILF("trunc.case.longer-than-input", "%d > %d", u.length(), len); if (!lenok(u)) { if (AVOID & 2) { c.count("case_map_embedded_nul_on_illformed_input(recorded)"); break; } } if (!lenok(u)) FAILF("trunc.toLowerCase.length-vs-strlen", "length()=%d strlen=%d: the output contains a NUL byte", u.length(), (int)strlen(*u)); break; }
 	case 8: { String o = exact(PAD + "zz"); bool a = s.equalsNocase(s), b = s.equalsNocase(o), d = o.equalsNocase(s); if (!a || b || d) c.count("trunc_equalsNocase_unexpected(recorded)"); break; }
 	default: { int n = s.wlength(); if (n > len) FAILF("trunc.wlength", "%d", n); break; }
 	}
